@@ -16,7 +16,9 @@ CallVerdict(r) ==
   ELSE IF r.out = None THEN "not-parsed"
   ELSE IF r.off = Naive THEN "naive-result"
   ELSE IF r.off # r.expoff THEN "wrong-offset"
-  ELSE IF r.out # r.wall THEN "wall-clock-changed"
+  \* a body that is a clock time only: the date is chosen by the preference settings, the written time of day stays
+  ELSE IF r.timeonly /\ <<r.out[4], r.out[5], r.out[6], r.out[7]>> # <<r.wall[4], r.wall[5], r.wall[6], r.wall[7]>> THEN "wall-clock-changed"
+  ELSE IF ~r.timeonly /\ r.out # r.wall THEN "wall-clock-changed"
   ELSE IF ~r.pk THEN "pickle-or-copy-changed-the-value"
   ELSE "ok"
 NaiveVerdict(r) == IF r.exc # "" THEN "exception" ELSE IF r.out = None THEN "not-parsed"
